@@ -46,7 +46,7 @@ checks = {
   'technique': 'deterministic simulation: step-by-step refinement of every stepped EM iteration against an independent executable reference model (Spec-EM), with injected LAPACK failures and cancellation',
   'level_claimed': {
    'category': 'exploration',
-   'text': 'Every EM step of seeded fit histories of all seven mixture trainers is compared, from the implementation\'s own state, with an independently written reference E-step (Bayes rule on the component log_pdf) and M-step (documented weighted estimators), including schedule (n iterations = n alternations, returned model = last model), the quadratic form of the preceding E-step, joint permutation under inline alignment, and under injected LAPACK failures (a fallback may fail, it may not return a wrong estimator). Also the stand-alone distribution trainers on shared trainer objects and the integer-saliency repetition law.',
+   'text': 'Every EM step of seeded fit histories of all seven mixture trainers is compared, from the implementation\'s own state, with an independently written reference E-step (Bayes rule on the component log_pdf) and M-step (documented weighted estimators), including schedule (n iterations = n alternations, returned model = last model, fit_predict = posterior of that model), the quadratic form of the preceding E-step, joint permutation under inline alignment and that the alignment is the one the aligner computes, and under injected LAPACK failures (a fallback may fail, it may not return a wrong estimator; every LAPACK call index of a fixed catalogue fails once). Also the stand-alone distribution trainers on shared trainer objects, n-fold Tyler steps and their fixed point, and the integer-saliency repetition law. One genuine defect (Bingham, near-duplicate scatter eigenvalues) is a listed known finding.',
    'design_ref': 'DESIGN.md §3.3'
   },
   'level_note': 'Trusts numpy/scipy and the reference model in sim/spec_em.py (written from the formulas in the property, not from the code). Tolerances 1e-8 relative per step (no accumulation: each step is checked from the implementation\'s own previous state).'
@@ -61,7 +61,7 @@ checks = {
   'technique': 'deterministic simulation with fault injection: seeded operation histories over a shared world (read-only digested arrays, reused trainers, global RNG) checked against a fresh-world replica, with injected interrupts, cancellations and LAPACK failures',
   'level_claimed': {
    'category': 'exploration',
-   'text': 'Seeded search over histories of public API calls on one shared world: all arrays are handed over read-only and byte-digested after every operation (O1), every operation is repeated with the RNG restored (O2), compared bitwise with a fresh-world replica (O3: reused trainer == fresh trainer, or an explicit rejection after a dimension change), cACGMM split / restart schedules equal the uninterrupted fit bitwise (O4), operations with a given start leave the global RNG untouched (O5) and no global numpy state leaks (O6) - also after injected interrupts at Python line granularity, cancellations and LAPACK failures. Interrupt sites of a fixed catalogue are enumerated completely.',
+   'text': 'Seeded search over histories of public API calls on one shared world: all arrays are handed over read-only and byte-digested after every operation, pooled models included (O1), every operation is repeated with the RNG restored (O2), compared bitwise with a fresh-world replica (O3: reused trainer / aligner == fresh one, or an explicit rejection after a dimension change), cACGMM split / restart schedules equal the uninterrupted fit bitwise (O4), operations with a given start leave the global RNG untouched (O5), no global numpy state leaks (O6), a sample of the calls is repeated at the end of the session (O7) and a sample of whole runs is repeated in a pristine forked process (module-level state) - also after injected interrupts at Python line granularity, cancellations and LAPACK failures. Interrupt sites and LAPACK call indices of a fixed catalogue are enumerated completely.',
    'design_ref': 'DESIGN.md §3.1'
   },
   'level_note': 'Trusts numpy/scipy determinism in one process with single-threaded BLAS (self-tested). Interrupts are Python-line granular. BinaryGMMTrainer (scikit-learn KMeans) and evaluation.wrapper (missing optional deps) are outside the catalogue.'
@@ -82,6 +82,6 @@ m = {
  'checks': [checks[c] for c in claimed],
  'not_applicable': [{'property_id': k, 'reason': v} for k, v in na_reason.items()]
    + [{'property_id': c, 'reason': 'claimed in DESIGN.md §3 but its check is not part of this commit yet (under construction)'} for c in ('C02','C08','C20') if c not in claimed],
- 'notes': 'Technique family: deterministic simulation with fault injection. pb_bss has no threads, timers, sockets or file I/O; the simulated system is one process-wide session (shared arrays, reused trainer objects, global numpy RNG, models fed back into the library) driven through seeded histories with injected faults. 17 of 20 properties are pure input->output statements and are listed as not applicable (DESIGN.md §5). Fix commits in /repo: 25f396a, e894685, 0b37955, 0720361, ddbc90f, 0ae8eff, b91eedc (see known_findings.json).',
+ 'notes': 'Technique family: deterministic simulation with fault injection. pb_bss has no threads, timers, sockets or file I/O; the simulated system is one process-wide session (shared arrays, reused trainer objects, global numpy RNG, models fed back into the library) driven through seeded histories with injected faults. 17 of 20 properties are pure input->output statements and are listed as not applicable (DESIGN.md §5). Fix commits in /repo: 25f396a, e894685, 0b37955, 0720361, ddbc90f, 0ae8eff, b91eedc (see known_findings.json; one further defect is a listed known finding of C08).',
 }
 json.dump(m, open('/verif/MANIFEST.json','w'), indent=1)
